@@ -901,3 +901,10 @@ func init() {
 			"byte order: tds announces little-endian in the login record and passes binary.LittleEndian; the announced order itself is checked by the login codec machinery, not here"),
 	})
 }
+
+// rule addenda (rounds 9-12): what the evidence says about the coverage of a run
+func init() {
+	if p := registry["C05"]; p != nil {
+		p.Rule += " Calendar helpers also at times of day with every part zero while the others are not (00:00:00.000001, 00:00:01, 00:59:59 …)."
+	}
+}
